@@ -393,6 +393,10 @@ func TestVerifRedis(t *testing.T) {
 	step := func(desc string) { rep.Eval(desc) }
 
 	// ---- positive entry through redis
+	// redis keeps fetch and expiry times in whole seconds: fetch late in a wall-clock second, where truncating and rounding differ
+	for ms := time.Now().Nanosecond() / 1e6; ms < 700 || ms > 850; ms = time.Now().Nanosecond() / 1e6 {
+		time.Sleep(10 * time.Millisecond)
+	}
 	step("A fetches pos1")
 	r1 := ask(A, N("pos1", "test"), 1)
 	fetched := time.Now() // the fetch is complete: the entry's true age is at least the time since now
